@@ -9,5 +9,7 @@ HARNESSES += _load("blk_common").sds_harnesses(("SEL_FLUSH",))
 HARNESSES += _load("blk_common").dwvw_harnesses()
 # ALAC staging layer (K-block contract for the bit-stream library)
 HARNESSES += _load("blk_common").alac_stage_harnesses(("SEL_WRITE", "SEL_READ"))
+# float / double file formats: the per-sample conversion kernels (exact for the lossless type pairs)
+HARNESSES += _load("C02").fconv_harnesses()
 
 META = {"assumptions": ["E-memfile"], "outside": ["block codecs: see DESIGN"]}
